@@ -74,6 +74,28 @@ def table_values(facts, ref):
     return None
 
 
+def toks_in(v, depth=0):
+    """Single-token provenances nested anywhere in a value."""
+    out = []
+    if depth > 8:
+        return out
+    if isinstance(v, dict):
+        for x in v.values():
+            out += toks_in(x, depth + 1)
+    elif isinstance(v, (list, tuple)):
+        if v and isinstance(v[0], str):
+            if v[0] in ('tok', 'tokend'):
+                return [v]
+            if v[0] in ('closure', 'obj', 'expr', 'const'):
+                return out
+            for x in v[1:]:
+                out += toks_in(x, depth + 1)
+        else:
+            for x in v:
+                out += toks_in(x, depth + 1)
+    return out
+
+
 def admits(facts, path, head):
     """Can a line whose lower-cased first token is `head` take this path?  Decided from the path's facts about the head (tests
     of earlier arms that came out negative included, so first-match-wins dispatch is honoured)."""
@@ -97,10 +119,16 @@ class Path:
         self.events = []
         self.head_facts = []   # ('eq', value, polarity, node) / ('in', NAME or frozenset, polarity, node) about the head token
         self.tok_facts = []    # ('tok_eq', provenance, const, polarity) / ('is_int', provenance, polarity)
+        self.tok_tests = []    # (token provenance, kind, detail, polarity, via): every test on the path that looks at a token;
+                               # kind 'eq' (detail = constant) | 'in' (frozenset) | 'in-table' (NAME) | 'other' (text);
+                               # via 'raw' | 'lower' | 'lookup' (lookup_register(token)) | 'int'
         self.flow = None       # None | 'break' | 'continue'
         self.ctor = None       # (value, node): the constructor call value most recently built by a `return`
         self.objs = {}         # object id -> {attribute: provenance} of helper-class instances built on this path
         self.counts = None     # set of possible numbers of tokens (from `len(tokens) in (..)` tests), or None
+        self.unknown_conds = []  # conditions on operand tokens that taught the path nothing (their meaning is not modelled)
+        self.tests = {}        # local name -> (test expression it was bound to, bindings of the names in it at that moment)
+        self.unknown_head = []   # comparisons of something derived from the first token that is not the recognised head (lower-cased)
 
     def clone(self):
         p = Path()
@@ -111,10 +139,14 @@ class Path:
         p.events = list(self.events)
         p.head_facts = list(self.head_facts)
         p.tok_facts = list(self.tok_facts)
+        p.tok_tests = list(self.tok_tests)
         p.flow = self.flow
         p.ctor = self.ctor
         p.objs = {k: dict(v) for k, v in self.objs.items()}
         p.counts = set(self.counts) if self.counts is not None else None
+        p.unknown_conds = list(self.unknown_conds)
+        p.tests = dict(self.tests)
+        p.unknown_head = list(self.unknown_head)
         return p
 
     def set_counts(self, allowed):
@@ -126,8 +158,13 @@ class Path:
 
     # -- what the path knows -------------------------------------------------------------------------------------------------
     def paren_form(self):
-        """The path was taken because some token equals '(' (the `imm(reg)` operand syntax)."""
-        return any(f[0] == 'tok_eq' and f[2] == '(' and f[3] for f in self.tok_facts)
+        """The path was taken because some token equals '(' / ')' (the `imm(reg)` operand syntax): True / False; None when the
+        path rests on a condition about operand tokens whose meaning is not modelled (it may be a test for that syntax)."""
+        if any(f[0] == 'tok_eq' and f[2] in ('(', ')') and f[3] for f in self.tok_facts):
+            return True
+        if self.unknown_conds:
+            return None
+        return False
 
     def head_sets(self, positive=True):
         return [f[1] for f in self.head_facts if f[0] == 'in' and f[2] == positive]
@@ -442,6 +479,8 @@ class TokenFlow:
                 if node.func.attr == 'items':
                     return ('list', [('list', [('const', k), v]) for k, v in pairs])
                 return ('list', [('const', k) if node.func.attr == 'keys' else v for k, v in pairs])
+        if fn == 'str.lower' and len(args) == 1 and not kwargs:
+            return ('lower', args[0])           # the unbound-method spelling of x.lower()
         if fn == 'parse_immediate' and args:
             return ('imm', args[0])
         if fn == 'int' and args:
@@ -604,20 +643,98 @@ class TokenFlow:
                     cands -= vals
         return cands
 
+    def _operand_terms(self, node, path):
+        """Does the expression look at operand tokens (anything but the first token / the token count)?"""
+        if isinstance(node, (ast.Name, ast.Subscript, ast.Attribute)):
+            v = self.ev(node, path.clone())
+
+            def touches(x):
+                if not isinstance(x, tuple) or not x:
+                    return False
+                if x[0] == 'tok':
+                    return x[1] >= 1
+                if x[0] in ('tokend', 'rest', 'star'):
+                    return True
+                if x[0] == 'expr':
+                    return isinstance(x[1], str) and self.tokens_name in x[1]
+                if x[0] in ('const', 'ref', 'func', 'closure', 'classref', 'line'):
+                    return False
+                return any(touches(y) for y in x[1:] if isinstance(y, (tuple, list))) or \
+                    any(touches(z) for y in x[1:] if isinstance(y, list) for z in y)
+            return touches(v)
+        if isinstance(node, ast.Call):
+            parts = list(node.args) + [k.value for k in node.keywords]
+            if isinstance(node.func, ast.Attribute):
+                parts.append(node.func.value)
+            return any(self._operand_terms(x, path) for x in parts)
+        if isinstance(node, (ast.Lambda, ast.Constant)):
+            return False
+        return any(self._operand_terms(c, path) for c in ast.iter_child_nodes(node) if isinstance(c, ast.expr))
+
+    def _derived_from_first(self, v):
+        if not isinstance(v, tuple) or not v:
+            return False
+        if v == ('tok', 0):
+            return True
+        if v[0] in ('lower', 'int'):
+            return self._derived_from_first(v[1])
+        if v[0] == 'call':
+            return any(self._derived_from_first(x) for x in v[2]) or any(self._derived_from_first(x) for x in v[3].values()) or \
+                (isinstance(v[1], str) and (self.tokens_name + '[0]') in v[1])
+        if v[0] == 'expr':
+            return isinstance(v[1], str) and (self.tokens_name + '[0]' in v[1] or self.tokens_name + '[-len(' in v[1])
+        return False
+
     def _learn(self, test, path, polarity):
+        n_facts = (len(path.head_facts), len(path.tok_facts), path.min_tokens, path.exact_tokens,
+                   tuple(sorted(path.counts)) if path.counts is not None else None)
+        recognised = self._learn_fact(test, path, polarity)
+        after = (len(path.head_facts), len(path.tok_facts), path.min_tokens, path.exact_tokens,
+                 tuple(sorted(path.counts)) if path.counts is not None else None)
+        if not recognised and after == n_facts:
+            try:
+                operand = self._operand_terms(test, path) and not self._plain_membership(test, path)
+            except AnalysisError:
+                operand = True
+            if operand:
+                path.unknown_conds.append(unparse(test))
+
+    def _plain_membership(self, test, path):
+        """`tok in TABLE` / `tok in ('sp', 'x2')` / `tok == 'sp'` (also through .lower(), lookup_register, int): a test of one token
+        against a known collection without a parenthesis in it says nothing about the `imm(reg)` form (it is recorded in tok_tests
+        for the rules that ask what happens to that token)."""
+        while isinstance(test, ast.UnaryOp) and isinstance(test.op, ast.Not):
+            test = test.operand
+        if not (isinstance(test, ast.Compare) and len(test.ops) == 1 and isinstance(test.ops[0], (ast.In, ast.NotIn, ast.Eq, ast.NotEq))):
+            return False
+        q = path.clone()
+        lv, rv = self.ev(test.left, q), self.ev(test.comparators[0], q)
+        if self.tok_base(lv) is None:
+            if isinstance(test.ops[0], (ast.Eq, ast.NotEq)) and self.tok_base(rv) is not None:
+                lv, rv = rv, lv
+            else:
+                return False
+        if isinstance(test.ops[0], (ast.Eq, ast.NotEq)):
+            return rv[0] == 'const' and rv[1] not in ('(', ')')
+        vals = self.table_values(rv) if rv[0] in ('ref', 'const', 'dictv') else (
+            {x[1] for x in rv[1]} if rv[0] == 'list' and all(x[0] == 'const' for x in rv[1]) else None)
+        return vals is not None and '(' not in vals and ')' not in vals
+
+    def _learn_fact(self, test, path, polarity):
+        """Record what the outcome of a test says about the line; True when the form of the test is modelled (even if this outcome
+        teaches nothing)."""
         if isinstance(test, ast.UnaryOp) and isinstance(test.op, ast.Not):
-            return self._learn(test.operand, path, not polarity)
+            return self._learn_fact(test.operand, path, not polarity)
         if isinstance(test, ast.BoolOp):
             if (isinstance(test.op, ast.And) and polarity) or (isinstance(test.op, ast.Or) and not polarity):
-                for v in test.values:
-                    self._learn(v, path, polarity)
-            return
+                return all([self._learn_fact(v, path, polarity) for v in test.values])
+            return False
         lr = self._len_of_rest(test, path)
         if lr is not None and isinstance(lr[2], list):
             v, op, ns = lr
             if isinstance(op, ast.In) == polarity:
                 path.set_counts({v[1] + v[2] + x for x in ns})
-            return
+            return True
         if lr is not None:
             v, op, n = lr
             total = v[1] + v[2] + n
@@ -627,10 +744,10 @@ class TokenFlow:
                 path.min_tokens = max(path.min_tokens, total)
             elif (isinstance(op, ast.Gt) and polarity) or (isinstance(op, ast.LtE) and not polarity):
                 path.min_tokens = max(path.min_tokens, total + 1)
-            return
+            return True
         if isinstance(test, ast.Call) and dotted(test.func) == 'is_int' and len(test.args) == 1:
             path.tok_facts.append(('is_int', self.ev(test.args[0], path), polarity))
-            return
+            return True
         if isinstance(test, (ast.Name, ast.Subscript, ast.Attribute)):
             v = self.ev(test, path)
             if v[0] == 'rest':
@@ -641,7 +758,8 @@ class TokenFlow:
                         path.set_counts({c for c in path.counts if c > base})
                 else:
                     path.exact_tokens = base
-            return
+                return True
+            return v[0] in ('const', 'func', 'closure', 'classref', 'line', 'obj', 'dictv')
         if isinstance(test, ast.Compare) and len(test.ops) == 1:
             left = self.ev(test.left, path)
             right = self.ev(test.comparators[0], path)
@@ -665,6 +783,11 @@ class TokenFlow:
                             path.head_facts.append(('in', ('const', frozenset(vals)), polarity, test))
             elif left[0] in ('tok', 'tokend') and isinstance(op, (ast.Eq, ast.NotEq)) and right[0] == 'const':
                 path.tok_facts.append(('tok_eq', left, right[1], polarity))
+            elif isinstance(op, (ast.In, ast.NotIn, ast.Eq, ast.NotEq)) and self._derived_from_first(left) and \
+                    (right[0] in ('ref', 'dictv') or (right[0] == 'const' and isinstance(right[1], (str, set, frozenset, list, tuple, dict)))):
+                # a mnemonic test on a value that is not the lower-cased first token as the flow knows it (casefold(), a helper the
+                # flow keeps symbolic): which lines take the branch is not known
+                path.unknown_head.append(unparse(test))
 
     # -- binding --------------------------------------------------------------------------------------------------------------
     def unpack(self, targets, value, path, node):
@@ -978,6 +1101,8 @@ class TokenFlow:
                     fp.conds.append((text, False, target.test))
                     self._learn(target.test, tp, True)
                     self._learn(target.test, fp, False)
+                    self._note_test(target.test, tp, True)
+                    self._note_test(target.test, fp, False)
                     work.append((fp, _replace(n, target, target.orelse)))
                     work.append((tp, _replace(n, target, target.body)))
                 else:
@@ -1015,7 +1140,79 @@ class TokenFlow:
                 break
         return live + parked
 
+    def _named_test(self, test, path):
+        """`flag = tokens[3] == '('` ... `if flag:` is `if tokens[3] == '(':` as long as no name of the expression was rebound."""
+        if isinstance(test, ast.UnaryOp) and isinstance(test.op, ast.Not):
+            inner = self._named_test(test.operand, path)
+            return None if inner is None else ast.copy_location(ast.UnaryOp(op=ast.Not(), operand=inner), test)
+        if isinstance(test, ast.Name) and test.id in path.tests:
+            node, snap = path.tests[test.id]
+            if path.env.get(test.id) == ('expr', unparse(node)) and all(path.env.get(k) == v for k, v in snap.items()):
+                return node
+        return None
+
+    @staticmethod
+    def tok_base(v):
+        """(token provenance, via) when the value is a token seen raw, lower-cased, through lookup_register or int()."""
+        via = 'raw'
+        for _ in range(4):
+            if v[0] in ('tok', 'tokend'):
+                return v, via
+            if v[0] == 'lower':
+                v, via = v[1], ('lower' if via == 'raw' else via)
+            elif v[0] == 'int':
+                v, via = v[1], 'int'
+            elif v[0] == 'call' and v[1] == 'lookup_register' and v[2]:
+                v, via = v[2][0], 'lookup'
+            else:
+                return None
+        return None
+
+    def _note_test(self, test, path, polarity):
+        """Record which tokens a test looks at, and how (see Path.tok_tests)."""
+        while isinstance(test, ast.UnaryOp) and isinstance(test.op, ast.Not):
+            test, polarity = test.operand, not polarity
+        if isinstance(test, ast.Compare) and len(test.ops) == 1:
+            op = test.ops[0]
+            lv, rv = self.ev(test.left, path), self.ev(test.comparators[0], path)
+            b = self.tok_base(lv)
+            if b is None and isinstance(op, (ast.Eq, ast.NotEq)) and self.tok_base(rv) is not None:
+                lv, rv = rv, lv
+                b = self.tok_base(lv)
+            if b is not None:
+                pol = polarity if isinstance(op, (ast.Eq, ast.In, ast.Is)) else not polarity
+                if isinstance(op, (ast.Eq, ast.NotEq)) and rv[0] == 'const':
+                    path.tok_tests.append((b[0], 'eq', rv[1], pol, b[1]))
+                    return
+                if isinstance(op, (ast.In, ast.NotIn)):
+                    if rv[0] == 'ref':
+                        path.tok_tests.append((b[0], 'in-table', rv[1], pol, b[1]))
+                        return
+                    vals = self.table_values(rv) if rv[0] in ('const', 'dictv') else (
+                        {x[1] for x in rv[1]} if rv[0] == 'list' and all(x[0] == 'const' for x in rv[1]) else None)
+                    if vals is not None:
+                        path.tok_tests.append((b[0], 'in', frozenset(vals), pol, b[1]))
+                        return
+        self._note_use(test, path, polarity, unparse(test))
+
+    def _note_use(self, expr, path, polarity, text):
+        """Tokens that flow into an expression this evaluator does not interpret (an opaque test, a call statement)."""
+        seen = set()
+        for n in ast.walk(expr):
+            if isinstance(n, (ast.Name, ast.Subscript, ast.Call, ast.Attribute)):
+                try:
+                    v = self.ev(n, path)
+                except AnalysisError:
+                    continue
+                for t in toks_in(v):
+                    if t not in seen:
+                        seen.add(t)
+                        path.tok_tests.append((t, 'other', text, polarity, 'raw'))
+
     def _fork(self, test, path, outcomes, then_body, else_body):
+        named = self._named_test(test, path)
+        if named is not None:
+            test = named
         if isinstance(test, ast.BoolOp) and len(test.values) >= 2:
             # short-circuit evaluation as nested tests, so that each operand teaches its own fact:
             #   if A or B: X else: Y   ==   if A: X else: (if B: X else: Y)      if A and B: X else: Y   ==   if A: (if B: X else: Y) else: Y
@@ -1038,6 +1235,8 @@ class TokenFlow:
                 fp.conds.append((text, False, test))
                 self._learn(t, tp, True)
                 self._learn(t, fp, False)
+                self._note_test(t, tp, True)
+                self._note_test(t, fp, False)
                 out += self._block(then_body, tp, outcomes)
                 out += self._block(else_body, fp, outcomes) if else_body else [fp]
             elif d:
@@ -1047,6 +1246,16 @@ class TokenFlow:
         return out
 
     def _stmt(self, st, path, outcomes):
+        if isinstance(st, ast.Assign) and len(st.targets) > 1 and all(isinstance(t, ast.Name) for t in st.targets):
+            # a = b = <value>: every name is bound to the same value
+            out = []
+            for p, value in self._hoist(st.value, path, outcomes):
+                v = self.ev(value, p)
+                for t in st.targets:
+                    self.bind(t, v, p)
+                    p.tests.pop(t.id, None)
+                out.append(p)
+            return out
         if isinstance(st, ast.Assign) and len(st.targets) == 1:
             out = []
             for p, value in self._hoist(st.value, path, outcomes):
@@ -1061,6 +1270,10 @@ class TokenFlow:
                         self.unpack(tgt.elts, self.ev(value, p), p, st)
                 else:
                     self.bind(tgt, self.ev(value, p), p)
+                    if isinstance(tgt, ast.Name):
+                        p.tests.pop(tgt.id, None)
+                        if isinstance(value, (ast.Compare, ast.BoolOp)) or (isinstance(value, ast.UnaryOp) and isinstance(value.op, ast.Not)):
+                            p.tests[tgt.id] = (value, {n.id: p.env.get(n.id) for n in ast.walk(value) if isinstance(n, ast.Name)})
                 out.append(p)
             return out
         if isinstance(st, ast.If):
@@ -1107,7 +1320,12 @@ class TokenFlow:
         if isinstance(st, ast.Expr):
             if isinstance(st.value, ast.Constant):
                 return [path]
-            return [p for p, _ in self._hoist(st.value, path, outcomes)]
+            out = []
+            for p, value in self._hoist(st.value, path, outcomes):
+                if isinstance(value, ast.Call):
+                    self._note_use(value, p, True, unparse(st.value))       # tokens handed to a call that is not walked
+                out.append(p)
+            return out
         if isinstance(st, (ast.Pass, ast.Assert, ast.Import, ast.ImportFrom, ast.Global, ast.Nonlocal)):
             return [path]
         if isinstance(st, ast.AugAssign):
